@@ -745,6 +745,16 @@ func dkgEngine(workdir string) {
 			r, sig := in.signer.SignBeaconAttestation(context.Background(), &checker.Credentials{Client: "client1", RequestID: "r"},
 				unhexStr(f[2]), nil, parseAtt(strings.Split(f[3], ",")))
 			res = posStr(r, sig)
+		case "iatts":
+			// the same through the batch endpoint (a batch of one)
+			in := c.insts[u64(f[1])]
+			rs, sigs := in.signer.SignBeaconAttestations(context.Background(), &checker.Credentials{Client: "client1", RequestID: "r"},
+				[]string{unhexStr(f[2])}, [][]byte{nil}, []*rules.SignBeaconAttestationData{parseAtt(strings.Split(f[3], ","))})
+			if len(rs) == 1 && len(sigs) == 1 {
+				res = posStr(rs[0], sigs[0])
+			} else {
+				res = fmt.Sprintf("shape:%d:%d", len(rs), len(sigs))
+			}
 		case "iprop":
 			in := c.insts[u64(f[1])]
 			r, sig := in.signer.SignBeaconProposal(context.Background(), &checker.Credentials{Client: "client1", RequestID: "r"},
